@@ -394,7 +394,7 @@ PROPS["C04"] = {
     "modules": ["WhatIs.Props.C04"],
     "theorems": ["WhatIs.C04.key_usage_table_ordered", "WhatIs.C04.identities_order_independent",
                  "WhatIs.C04.jwt_order_independent", "WhatIs.C04.jwt_no_map_range"],
-    "facts": {"keyusage.isMap": False, "jwt.rangesOverMap": False,
+    "facts": {"cli.processZoneIsUTC": True, "keyusage.isMap": False, "jwt.rangesOverMap": False,
               "scan.mapRanges": ["internal/file pgpKey: e.Identities [function sorts]"],
               "scan.formatsNonUTC": ["internal/asn1struct Raw.Value: Format t"],
               "scan.envReads": ["internal/openpgp/packet Config.Now: time.Now"]},
